@@ -7,6 +7,7 @@ mod alloc;
 mod comp;
 mod ctor;
 mod gen;
+mod hlru;
 mod lfu;
 mod lru;
 mod prng;
@@ -130,6 +131,56 @@ fn slice_lru(a: &Args, t: &mut Trace) {
                     None
                 } else {
                     Some(gen::lru_op(&mut r, &mut kg, &mut vg, snap, cap))
+                }
+            },
+            &tag,
+        );
+    }
+}
+
+/// RawLRU at the level of node addresses (kind 9): the operations the heap model covers
+fn slice_hlru(a: &Args, t: &mut Trace) {
+    let caps: [u64; 8] = [1, 1, 2, 2, 3, 4, 5, 8];
+    for i in 0..a.n {
+        let (mine, stream, hforce) = case_plan(a, i);
+        if !mine {
+            continue;
+        }
+        let mut r = rng_for(a.seed, stream);
+        let cap = *r.pick(&caps);
+        let hmode = hforce.unwrap_or(r.below(5));
+        let len = r.range(a.len / 4 + 1, a.len) as usize;
+        let mut kg = gen::KeyGen::new(cap + 3);
+        let mut vg = gen::ValGen(1000);
+        let cfg = [cap as i128];
+        let id = format!("hlru-s{}-i{}", a.seed, i);
+        let meta = format!("hasher={}", hmode);
+        run_case(
+            t,
+            &id,
+            9,
+            &cfg,
+            &meta,
+            &|| Box::new(hlru::HLruSubj::new(cap as usize, hmode)),
+            &mut |step, snap| {
+                if step >= len {
+                    return None;
+                }
+                // the alphabet of the heap model: everything but the iterators, clone and Debug
+                let fake: Ints = {
+                    let res = hlru::resident(snap);
+                    let mut v = vec![cap as i128, res.len() as i128];
+                    for k in res {
+                        v.push(k as i128);
+                        v.push(0);
+                    }
+                    v
+                };
+                loop {
+                    let op = gen::lru_op(&mut r, &mut kg, &mut vg, &fake, cap);
+                    if !matches!(op[0], 24 | 25 | 26) {
+                        return Some(op);
+                    }
                 }
             },
             &tag,
@@ -390,6 +441,7 @@ pub fn mk_subject(kind: u32, cfg: &[i128], meta: &std::collections::HashMap<Stri
         6 => Box::new(lfu::mk_sampled(cfg[0] as i64, cfg[1] as usize, m("ctor"))),
         7 => Box::new(putres::PutResSubj),
         8 => Box::new(ctor::CtorSubj),
+        9 => Box::new(hlru::HLruSubj::new(cfg[0] as usize, m("hasher"))),
         _ => panic!("unknown kind"),
     }
 }
@@ -573,6 +625,7 @@ fn main() {
         "putres" => slice_putres(&a, &mut t),
         "ctor" => slice_ctor(&a, &mut t),
         "lru_bfs" => slice_lru_bfs(&a, &mut t),
+        "hlru" => slice_hlru(&a, &mut t),
         s => {
             eprintln!("unknown slice {}", s);
             std::process::exit(2);
